@@ -76,6 +76,7 @@ class FsPath:
 
 
 SHAPES = {
+    "late": lambda ps: list(ps),
     "fspath": lambda ps: [FsPath(p) for p in ps],
     "pathlib": lambda ps: [__import__("pathlib").PurePosixPath(p) for p in ps],
     "userdict": lambda ps: collections.UserDict({f"k{i}": p for i, p in enumerate(ps)}),
@@ -109,7 +110,16 @@ def build_case(wd, tdefs, order):
         outs = [spell(k, wd, td["twd_rel"], *FILES[f]) for f, k in td["outs"]]
         sh = SHAPES[td["shape"]]
         wds = wd_string(wd, td["twd_rel"], td["relative_wd"])
-        real[td["name"]] = gwfh.mk_target(td["name"], sh(ins) if ins else [], sh(outs) if outs else [], working_dir=wds)
+        if td["shape"] == "late":
+            # the paths are added to the target's own containers after it was created and asked once for its files (a workflow file that
+            # builds up a target step by step)
+            t_ = gwfh.mk_target(td["name"], [], [], working_dir=wds)
+            t_.flattened_inputs(), t_.flattened_outputs()
+            t_.inputs.extend(ins)
+            t_.outputs.extend(outs)
+            real[td["name"]] = t_
+        else:
+            real[td["name"]] = gwfh.mk_target(td["name"], sh(ins) if ins else [], sh(outs) if outs else [], working_dir=wds)
         rins = {RP.resolve(wds, p, cwd=wd) for p in ins}
         routs = {RP.resolve(wds, p, cwd=wd) for p in outs}
         # harness sanity: the reference resolves each spelling to the file it was generated for
